@@ -285,7 +285,12 @@ Print Assumptions mon03_obligations_sound.
     decidable; true on the 800 generated observations it was evaluated on), every incarnation is a run
     of the model from NewPersistentBlockList on the state its predecessor left, and whenever the monitor
     carries obligations on, the state on the medium covers every acknowledgement of this incarnation
-    AND every inherited one (rotation out of the list being the only excuse). *)
+    AND every inherited one (rotation out of the list being the only excuse); moreover at EVERY point
+    of every incarnation's history ([acks_resolve], for every prefix of the entries) every
+    acknowledgement made so far or inherited is evicted or its index record — the BlockReference
+    written at acknowledgement time — resolves on the current list to its block with its epoch seed,
+    below the write cursor (distances < 2^32 epochs, < 2^16 blocks as in
+    [record_resolves_after_restart]). *)
 Theorem mon03_obligations_sound_chain : forall inp obs, replay03 inp obs = [] ->
   forallb all_restored_h (sx_list obs) = true ->
   let c := sx_nth inp 0 in
